@@ -91,6 +91,9 @@ func child(args []string) int {
 		for i := range plan {
 			plan[i].Idx = i
 			plan[i].Prop = p.ID()
+			if k := os.Getenv("VERIF_ONLY_KIND"); k != "" && plan[i].Kind != k {
+				continue // debugging aid: run one scenario kind only
+			}
 			if i%*of == *shard {
 				list = append(list, plan[i])
 			}
